@@ -17,25 +17,15 @@ fn main() {
     let plans = qcheck::tier_plans(args.tier, false);
     let budget = if args.tier == Tier::Quick { Duration::from_secs(40) } else { Duration::from_secs(1500) };
     qcheck::run_plans(&mut c, &plans, budget);
-    // Runs longer than 65536 submissions on one live queue, every step checked, and the
+    // Linear histories (runs longer than 65536 submissions, queue sizes up to 1024) and the
     // faithfulness of the warp shortcut used by the BFS parts.
+    qcheck::run_linear(&mut c, args.tier);
     {
         use vlab::engine::chooser;
         use vlab::qcore::{self, QCfg};
         use vlab::util::J;
-        let cycles = if args.tier == Tier::Quick { 24_000 } else { 120_000 };
         for (ind, ev) in [(false, false), (true, true)] {
             let cfg = QCfg { indirect: ind, event_idx: ev, ap: false, legacy: false, start_off: 0, notify_ops: false, abstract_idx: false, trace: false, reduced: false };
-            let part = format!("linear-run:N=4,indirect={},event_idx={},cycles={}", ind as u8, ev as u8, cycles);
-            chooser::begin(&[], false);
-            let steps = vlab::util::catch(|| qcore::linear_run::<4>(cfg, cycles));
-            let out = chooser::end();
-            let steps = steps.unwrap_or(0);
-            let subs = out.tags.iter().filter(|t| t.as_ref() == "add:ok").count() as u64;
-            c.add_sweep(&part, steps, 1, true, J::obj().set("successful_submissions", J::i(subs)).set("index_wraps", J::i(subs / 65536)));
-            for v in out.violations.into_iter().take(3) {
-                c.add_violation(v, &part, J::obj().set("kind", J::s("linear")).set("note", J::s("deterministic linear history; re-run the check")), vec![]);
-            }
             chooser::begin(&[], false);
             let r = vlab::util::catch(|| qcore::warp_faithfulness::<4>(cfg, 65536 + 5));
             let _ = chooser::end();
